@@ -35,7 +35,7 @@ MANIFEST = {
 
 FORMATS = ["srt", "webvtt", "dfxp", "sami", "microdvd"]
 POINTS = [0, 1000500, 2040000, 3999999, 5000000, 5001000, 8040000, 10000001, 3600000000, 86390000999]
-TOKENS = ["word", "two words", "&", "<", "x > y", "a -->", "&amp;", "\u00e9", "it's", '"q"', "&gt;&gt; NARRATOR", "a &lt; b", "a&nbsp;b", "&#65;"]
+TOKENS = ["word", "two words", "&", "<", "x > y", "a -->", "&amp;", "\u00e9", "it's", '"q"', "&gt;&gt; NARRATOR", "a &lt; b", "a&nbsp;b", "&#65;", "kidding ;> bye", "R&D;>"]
 
 
 def bounds(tier):
@@ -113,7 +113,7 @@ def same(obs, model):
         if len(co) != len(cm):
             return "cue-count"
         for (s, e, lines), (ms, me, mlines) in zip(co, cm):
-            if tuple(lines) != tuple(parsers.norm_line(l) for l in mlines):
+            if tuple(lines) != tuple(parsers.norm_line(l) for l in mlines if parsers.norm_line(l)):
                 return "text"
             if s != ms:
                 return "start"
@@ -186,6 +186,10 @@ def single_models(tier):
             for i, (s, e) in enumerate(tl):
                 tok = TOKENS[(i + r) % len(TOKENS)]
                 lines = (tok,) if (i + r) % 3 else (tok, TOKENS[(i + r + 4) % len(TOKENS)])
+                if (i + r) % 5 == 4:
+                    # a spacer line (blank / white-space only) between two visible lines: dropped by the
+                    # white-space-normalised comparison, but it must not cut the cue
+                    lines = (tok, ["", " ", "\u00a0"][(i + r) % 3], TOKENS[(i + r + 2) % len(TOKENS)])
                 cues.append((s, e, lines))
             out.append([("en-US", cues)])
     return out
